@@ -6,6 +6,7 @@
 // `get`) whose results are uninterpreted here: the contract relates the RESULT to those answers.
 use vstd::prelude::*;
 use vstd::arithmetic::power2::*;
+use vstd::arithmetic::power::*;
 use vstd::arithmetic::div_mod::*;
 use vstd::arithmetic::mul::*;
 use vstd::std_specs::cmp::PartialEqSpec;
@@ -19,7 +20,7 @@ global size_of usize == 8;
 pub open spec fn m_of(bits: nat) -> int { pow2(bits) as int }
 
 // ------------------------------------------------------------------ boundary: CellType (contracts proved in unit u1_cell)
-//@extract src/lib.rs :: trait CellType { const BITS, const ZERO, const ONE, const NEG_ONE, fn wrapping_neg, boundary fn wrapping_inv, boundary fn wrapping_div }
+//@extract src/lib.rs :: trait CellType { const BITS, const ZERO, const ONE, const NEG_ONE, fn wrapping_add, fn wrapping_mul, fn wrapping_neg, fn wrapping_shr, boundary fn is_odd, boundary fn wrapping_inv, boundary fn wrapping_div }
 
 // ------------------------------------------------------------------ boundary: Expr (contracts of val/var/constant/const_inc_of/identity proved in unit u4_expr)
 #[verifier::external_body]
@@ -135,6 +136,48 @@ pub proof fn lemma_neg_solution(y: int, inc: int, m: int, md: int)
         }
     }
 }
+
+// ------------------------------------------------------------------ geometric series (second consumer: loop_motion's closed form)
+/// 1 + a + a^2 + ... + a^(n-1)
+pub open spec fn geo(a: int, n: nat) -> int
+    decreases n
+{
+    if n == 0 { 0 } else { 1 + a * geo(a, (n - 1) as nat) }
+}
+
+/// the n-fold iterate of x -> a*x + 1 composes: geo(p + r) = a^p * geo(r) + geo(p)
+pub proof fn lemma_geo_add(a: int, p: nat, r: nat)
+    ensures geo(a, p + r) == pow(a, p) * geo(a, r) + geo(a, p)
+    decreases p
+{
+    reveal(pow);
+    if p == 0 {
+        assert(pow(a, 0) == 1);
+        assert(geo(a, 0) == 0);
+        assert(1 * geo(a, r) == geo(a, r));
+    } else {
+        let q = (p - 1) as nat;
+        lemma_geo_add(a, q, r);
+        assert(geo(a, p + r) == 1 + a * geo(a, q + r));
+        assert(geo(a, p) == 1 + a * geo(a, q));
+        assert(pow(a, p) == a * pow(a, q));
+        let x = pow(a, q); let g = geo(a, r); let h = geo(a, q);
+        assert(1 + a * (x * g + h) == (a * x) * g + (1 + a * h)) by (nonlinear_arith);
+    }
+}
+
+/// ((x mod m) * (y mod m) mod m + (z mod m)) mod m == (x*y + z) mod m
+pub proof fn lemma_affine_mod(x: int, y: int, z: int, m: int)
+    requires m > 0
+    ensures (((x % m) * (y % m)) % m + (z % m)) % m == (x * y + z) % m
+{
+    lemma_mul_mod_noop_general(x, y, m);
+    lemma_add_mod_noop(x * y, z, m);
+    lemma_mod_twice(z, m);
+    lemma_add_mod_noop((x % m) * (y % m), z % m, m);
+}
+
+//@extract src/opt.rs :: fn wrapping_geometric_sum
 
 //@extract src/opt.rs :: struct OptLoop
 //@extract src/opt.rs :: struct OptRebuild { field shift, field sub_shift, field no_return }
